@@ -82,6 +82,8 @@ type wantUnit struct {
 	pes     *astits.PESHeader
 	af      *astits.PacketAdaptationField
 	sid     uint8
+	// privGiven >= 0: the caller gave that many bytes of the 16-byte PES_private_data field
+	privGiven int
 }
 
 func (pipeline) Execute(scAny any, keepLog bool) *core.Outcome {
@@ -126,11 +128,14 @@ func (pipeline) Execute(scAny any, keepLog bool) *core.Outcome {
 		wspec := spec
 		wspec.NilOpt = false // what comes back is the empty optional header
 		wantPES := wspec.ToAstits()
+		privGiven := -1
 		if oh := wantPES.OptionalHeader; oh != nil && oh.HasPrivateData && len(oh.PrivateData) < 16 {
-			// PES_private_data is a 16-byte field: shorter caller data travel zero-padded
+			// PES_private_data is a 16-byte field: shorter caller data travel padded to 16 bytes;
+			// with what is the writer's choice (only the bytes given are compared)
+			privGiven = len(oh.PrivateData)
 			oh.PrivateData = append(append([]byte{}, oh.PrivateData...), make([]byte, 16-len(oh.PrivateData))...)
 		}
-		u := &wantUnit{call: c.I, pid: pid, payload: c.Payload, pes: wantPES, af: AFToAstits(c.Op.AF), sid: spec.StreamID}
+		u := &wantUnit{call: c.I, pid: pid, payload: c.Payload, pes: wantPES, af: AFToAstits(c.Op.AF), sid: spec.StreamID, privGiven: privGiven}
 		if _, ok := want[pid]; !ok {
 			order = append(order, pid)
 		}
@@ -361,6 +366,11 @@ func compareUnits(out *core.Outcome, prop, sig string, want map[uint16][]*wantUn
 				break
 			}
 			wantH := *u.pes
+			if u.privGiven >= 0 && wantH.OptionalHeader != nil && d.PES.Header.OptionalHeader != nil && len(d.PES.Header.OptionalHeader.PrivateData) == 16 {
+				oh := *wantH.OptionalHeader
+				oh.PrivateData = append(append([]byte{}, oh.PrivateData[:u.privGiven]...), d.PES.Header.OptionalHeader.PrivateData[u.privGiven:]...)
+				wantH.OptionalHeader = &oh
+			}
 			if u.sid == 0 {
 				if d.PES.Header.StreamID == 0 {
 					out.Violate(prop, "header-altered", sig, "PID %#x unit %d: stream id 0 delivered", pid, k)
@@ -440,7 +450,7 @@ func relay(out *core.Outcome, sc *PipelineScenario, res []DResult, got map[uint1
 			c := *d.FirstPacket.AdaptationField
 			af = &c
 		}
-		want[d.PID] = append(want[d.PID], &wantUnit{call: n, pid: d.PID, payload: append([]byte{}, d.PES.Data...), pes: &hdr, af: af, sid: hdr.StreamID})
+		want[d.PID] = append(want[d.PID], &wantUnit{call: n, pid: d.PID, payload: append([]byte{}, d.PES.Data...), pes: &hdr, af: af, sid: hdr.StreamID, privGiven: -1})
 		var afArg *astits.PacketAdaptationField
 		if d.FirstPacket != nil {
 			afArg = d.FirstPacket.AdaptationField
